@@ -374,6 +374,8 @@ def obs_term(path, o):
     if k == 'str':
         return f'({cq(path)}, RStr {blob(o["v"])})'
     if k == 'int':
+        if int(o['v']) < 0:      # no negative integer is ever expected: the comparison reports a kind mismatch
+            return f'({cq(path)}, RNum "negative-int" [])'
         return f'({cq(path)}, RInt {int(o["v"])}%N)'
     if k == 'u32':
         return f'({cq(path)}, RU32 {u32list(o["vals"])})'
